@@ -43,9 +43,30 @@ Check(P, n1, n2) ==
   /\ \A j \in 1..Len(P) : P[j] = P[Len(P) + 1 - j]                          \* U and n1 n2 - U are equally likely
   /\ SumS(P, Len(P)).m = PascalRow(n1 + n2)[n1 + 1]                        \* all C(N, n1) subsets
   /\ P[1].m = <<1>> /\ (Len(P) >= 2 => P[2].m = <<1>>)
-Emit == done => LET P == QBinom(sz[1], sz[2]) IN
-   /\ Check(P, sz[1], sz[2])
-   /\ PrintT(ToJson([n1 |-> sz[1], n2 |-> sz[2], cnt |-> [j \in 1..Len(P) |-> P[j].m], den |-> PascalRow(sz[1] + sz[2])[sz[1] + 1]]))
-SizesQuick == {<<3, 4>>, <<12, 15>>, <<39, 40>>}
-SizesThorough == SizesQuick \cup {<<50, 50>>, <<38, 45>>, <<50, 32>>, <<25, 50>>, <<37, 37>>, <<50, 3>>}
+\* ---- large TIED pools of two distinct values: a copies of the smaller, b of the larger, n1 values in the first sample ----
+\* The first sample takes r of the smaller value and n1 - r of the larger: C(a,r) C(b,n1-r) ways, and
+\*   2U = r (a - r) + (n1 - r) (2 (a - r) + b - (n1 - r))     (ties count 1, wins 2, in units of U/2)
+\* Emitted sparsely (one item per feasible r); TLC checks Vandermonde's identity sum_r C(a,r) C(b,n1-r) = C(a+b,n1).
+Max2(x, y) == IF x > y THEN x ELSE y
+Min2(x, y) == IF x < y THEN x ELSE y
+TwoU2(a, b, n1, r) == r * (a - r) + (n1 - r) * (2 * (a - r) + b - (n1 - r))
+Tied2(a, b, n1) == LET ra == PascalRow(a)  rb == PascalRow(b)  lo == Max2(0, n1 - b)  hi == Min2(a, n1) IN
+   TLCEval([i \in 1..(hi - lo + 1) |-> LET r == lo + i - 1 IN [r |-> r, twoU |-> TwoU2(a, b, n1, r), mult |-> Mul(ra[r + 1], rb[n1 - r + 1])]])
+RECURSIVE SumMult(_,_)
+SumMult(it, j) == IF j = 0 THEN <<>> ELSE Add(it[j].mult, SumMult(it, j - 1))
+Emit == done =>
+   IF Len(sz) = 2
+   THEN LET P == QBinom(sz[1], sz[2]) IN
+        /\ Check(P, sz[1], sz[2])
+        /\ PrintT(ToJson([kind |-> "untied", n1 |-> sz[1], n2 |-> sz[2], cnt |-> [j \in 1..Len(P) |-> P[j].m], den |-> PascalRow(sz[1] + sz[2])[sz[1] + 1]]))
+   ELSE LET a == sz[1]  b == sz[2]  n1 == sz[3]  it == Tied2(a, b, n1)  den == PascalRow(a + b)[n1 + 1] IN
+        /\ SumMult(it, Len(it)) = den
+        /\ \A i \in 1..(Len(it) - 1) : it[i].twoU > it[i + 1].twoU            \* more of the smaller value in sample 1: smaller U
+        /\ PrintT(ToJson([kind |-> "tied2", a |-> a, b |-> b, n1 |-> n1, n2 |-> a + b - n1, items |-> it, den |-> den]))
+\* pairs <<n1, n2>>: untied; triples <<a, b, n1>>: tied pools of two values.  The lopsided untied sizes (one sample of 1..3
+\* values, the other up to 300) need a raised exact limit; the tied pools reach totals C(N,n1) beyond 2^63 and beyond 1e80
+SizesQuick == {<<3, 4>>, <<12, 15>>, <<39, 40>>, <<1, 3>>, <<1, 259>>, <<3, 44>>, <<2, 300>>,
+               <<30, 37, 34>>, <<40, 40, 40>>, <<135, 135, 135>>, <<3, 167, 85>>, <<255, 255, 10>>}
+SizesThorough == SizesQuick \cup {<<50, 50>>, <<38, 45>>, <<50, 32>>, <<25, 50>>, <<37, 37>>, <<50, 3>>, <<1, 600>>, <<4, 260>>,
+                                  <<150, 160, 155>>, <<200, 180, 190>>, <<33, 33, 33>>, <<34, 33, 33>>, <<100, 170, 130>>, <<400, 400, 7>>}
 =============================================================================
